@@ -4,4 +4,6 @@
 From Coq Require Import Extraction ExtrOcamlBasic ExtrOcamlString.
 From Iso Require Import Model.Driver.
 Extraction Language OCaml.
+Cd "Extract/out".
 Extraction "model.ml" Model.Driver.run_line.
+Cd "../..".
